@@ -145,6 +145,15 @@ class Contract(object):
         self.closure_kinds_ = dict(kinds)
         return self
 
+    def externals(self, **kinds):
+        """Assumed contracts of third-party callees while proving this contract:
+        name (dots written as __) -> (kind of the result, may it raise)."""
+        if not hasattr(self, 'external_kinds_') or self.external_kinds_ is None:
+            self.external_kinds_ = {}
+        for k, v in kinds.items():
+            self.external_kinds_[k.replace('__', '.')] = v
+        return self
+
     def allow_external(self):
         """External (third-party) calls inside this function are modelled as uninterpreted
         results that may raise any Exception (each listed as an assumption)."""
